@@ -349,3 +349,30 @@ func packageStateMutations(cone []*ssa.Function, all []*ssa.Function, exempt *ss
 	}
 	return out
 }
+
+// localCone: fn and the functions of its own package it calls statically, up to
+// the given depth (extracted helpers belong to the function they were split from).
+func localCone(fn *ssa.Function, depth int) []*ssa.Function {
+	out := []*ssa.Function{fn}
+	seen := map[*ssa.Function]bool{fn: true}
+	frontier := []*ssa.Function{fn}
+	for d := 0; d < depth; d++ {
+		var next []*ssa.Function
+		for _, f := range frontier {
+			for _, c := range ssax.Calls(f) {
+				if _, isGo := c.Instr.(*ssa.Go); isGo {
+					continue
+				}
+				g := c.Static
+				if g == nil || g.Pkg != fn.Pkg || seen[g] || len(g.Blocks) == 0 {
+					continue
+				}
+				seen[g] = true
+				out = append(out, g)
+				next = append(next, g)
+			}
+		}
+		frontier = next
+	}
+	return out
+}
